@@ -1536,6 +1536,35 @@ func ruleR48(c *Ctx) {
 			var cis []ci
 			for _, a := range arms {
 				x := ci{a, map[*types.Var]bool{}, map[types.Object]bool{}}
+				// writes made by a same-package helper the arm calls belong to the arm
+				for _, st := range a.Body {
+					for _, hc := range callsIn(st) {
+						if cf := p.byObj[callee(in, hc)]; cf != nil && cf.Pkg == f.Pkg && cf.Body != nil && cf != f {
+							cin := info(cf)
+							inspectNoLit(cf.Body, func(m ast.Node) bool {
+								switch y := m.(type) {
+								case *ast.AssignStmt:
+									for _, l := range y.Lhs {
+										target := l
+										if ix, ok := unparen(l).(*ast.IndexExpr); ok {
+											target = ix.X
+										}
+										if fv := fieldOf(cin, target); fv != nil {
+											x.writes[fv] = true
+										}
+									}
+								case *ast.CallExpr:
+									if isBuiltin(cin, y, "delete") && len(y.Args) > 0 {
+										if fv := fieldOf(cin, y.Args[0]); fv != nil {
+											x.writes[fv] = true
+										}
+									}
+								}
+								return true
+							})
+						}
+					}
+				}
 				for _, st := range a.Body {
 					inspectNoLit(st, func(m ast.Node) bool {
 						switch y := m.(type) {
